@@ -119,6 +119,9 @@ def generate(seed, tier, k):
         axes = list(r.choice(list(itertools.permutations(range(dim), 2))))
         doc["bc"] = {"case": "biaxial", "clampes": [False, False], "sym": True, "axes": axes}
         doc["steps"] = [{"ramp": [{"target": "bc:move", "values": [round(e1 * mesh["b"][axes[0]] * x, 6) for x in t]}, {"target": "bc:move2", "values": [round(e2 * mesh["b"][axes[1]] * x, 6) for x in t]}]}]
+    if case == "uniaxial" and doc["bc"].get("sym") is True and not lagrange and pick(seed, "translated-body", 4) == 0:
+        # the body somewhere else in space: different offsets along every axis
+        doc["mesh"]["translate"] = [0.5, -0.7, 0.2][:dim] if pick(seed, "translated-body-where", 2) else [-1.25, 1.0, 3.5][:dim]
     fine = pick(seed, "fine-ramp", 5)
     if fine in (0, 1) and case != "patch":
         # a finely resolved section at the end of the ramp (increments of a few millionths of the
@@ -146,6 +149,7 @@ def generate(seed, tier, k):
         # two-phase history on the same Step object: first with the loaded face clamped (not
         # homogeneous, no oracle), then the clamp is released and the ramp continues
         doc["c09"]["release_clamp"] = True
+        doc["mesh"].pop("translate", None)  # (dof.uniaxial puts its symmetry planes through the origin)
         doc["c09"].pop("resume", None)
         doc["faults"] = [f for f in doc["faults"] if not f["kind"].startswith("callback")]
         doc["c09"]["twin"] = False
@@ -226,7 +230,8 @@ class C09Monitor(jobsim.Monitor):
             level = [r["values"][i] for r in ramp]
             F3, P = analytic_state(doc, w, level)
             Fbar = F3[:dim, :dim]
-        uref = X @ (Fbar - np.eye(dim)).T
+        X0 = np.asarray((list(doc["mesh"].get("translate") or []) + [0.0] * dim)[:dim])
+        uref = (X - X0) @ (Fbar - np.eye(dim)).T
         # converged-state tolerance (DESIGN section 6); the floor of the scale stands for the
         # load-free states of cyclic ramps, where only the Newton tolerance is left
         scale = max(float(np.abs(uref).max()), 0.05 * float(np.max(doc["mesh"]["b"])))
